@@ -985,6 +985,56 @@ example : ∀ n, PMap.value [(Key.str "A", Expr.lit 2), (Key.symbol "B", Expr.li
   simp only [PMap.value, Key.name]
   by_cases ha : n = "A" <;> by_cases hb : n = "B" <;> simp_all
 
+/-! ## eval_expr: the data arrays are bound to the symbols by name -/
+
+/-- **Binding by name**: with distinct symbols, a symbol paired with a value is bound to it. -/
+theorem eval_expr_binds_by_name {α : Type} (pairs : List (Sym × α)) (dflt : Env α)
+    (hnd : (pairs.map (fun p => p.1)).Nodup) (y : Sym) (v : α) (h : (y, v) ∈ pairs) :
+    bindEnv pairs dflt y = v := by
+  simp [bindEnv, (assocGet_some_iff pairs hnd y v).mpr h]
+
+/-- **The order of the argument list is irrelevant**: permuting symbols and data arrays
+    *consistently* (the same permutation of the pairs) denotes the same environment, hence the
+    same value of every expression — for argument lists of every length. -/
+theorem eval_expr_perm_invariant {α : Type} (I : Interp α) (e : Expr) (pairs pairs' : List (Sym × α))
+    (dflt : Env α) (hp : pairs.Perm pairs') (hnd : (pairs.map (fun p => p.1)).Nodup) :
+    e.eval I (bindEnv pairs dflt) = e.eval I (bindEnv pairs' dflt) := by
+  have hnd' : (pairs'.map (fun p => p.1)).Nodup := (hp.map _).nodup_iff.mp hnd
+  congr 1
+  funext y
+  simp only [bindEnv]
+  cases h : assocGet pairs y with
+  | some v =>
+    have hm : (y, v) ∈ pairs' := hp.mem_iff.mp ((assocGet_some_iff pairs hnd y v).mp h)
+    rw [(assocGet_some_iff pairs' hnd' y v).mpr hm]
+  | none =>
+    have hk : y ∉ pairs'.map (fun p => p.1) := fun hh =>
+      (assocGet_none_iff pairs y).mp h ((hp.map _).mem_iff.mpr hh)
+    rw [(assocGet_none_iff pairs' y).mpr hk]
+
+/-- Stated for `evalRow`: reordering the symbol list and the data list by the same permutation
+    of their pairs does not change the value at a record. -/
+theorem eval_row_order_invariant {α : Type} (I : Interp α) (e : Expr) (syms syms' : List Sym)
+    (data data' : List α) (dflt : Env α) (hp : (syms.zip data).Perm (syms'.zip data'))
+    (hnd : ((syms.zip data).map (fun p => p.1)).Nodup) :
+    evalRow I e syms data dflt = evalRow I e syms' data' dflt :=
+  eval_expr_perm_invariant I e _ _ dflt hp hnd
+
+/-- **An inconsistent order changes the value**: the symbols sorted one way, the data passed
+    in another (the twelve-symbol shape `__tmp0 … __tmp11` sorted as strings puts `__tmp10`,
+    `__tmp11` before `__tmp2`), on an expression that is not symmetric in its arguments. -/
+theorem eval_row_inconsistent_order_witness :
+    let syms := ["__tmp0", "__tmp1", "__tmp10", "__tmp11", "__tmp2", "__tmp3"]
+    let idx  := ["__tmp0", "__tmp1", "__tmp2", "__tmp3", "__tmp10", "__tmp11"]
+    let data : List Int := [1, 2, 3, 4, 5, 6]
+    let e : Expr := .f2 "add" (.f2 "mul" (.sym "__tmp2") (.lit 10)) (.sym "__tmp10")
+    evalRow IZ e idx data (fun _ => 0) = 35 ∧ evalRow IZ e syms data (fun _ => 0) = 53 := by
+  decide
+
+-- non-vacuity: a consistent reordering of three pairs
+example : evalRow IZ (.f2 "add" (.f2 "mul" (.sym "A") (.lit 10)) (.sym "B")) ["A", "B", "C"] [1, 2, 3] (fun _ => 0)
+    = evalRow IZ (.f2 "add" (.f2 "mul" (.sym "A") (.lit 10)) (.sym "B")) ["C", "A", "B"] [3, 1, 2] (fun _ => 0) := by decide
+
 /-! ## relation to the shared statement type -/
 
 /-- C07's statements extend the shared core: on embedded core statements `run` agrees. -/
